@@ -50,6 +50,11 @@ func TestC11(t *testing.T) {
 		procs := []int{1, 2, 4, 16}[gen.Pick(rt, "gomaxprocs", 4)]
 		pacing := gen.Pick(rt, "pacing", 3)
 		slowPeer := gen.Pick(rt, "slow_peer", 3)
+		// in a quarter of the scripts the raw frames of all producers are util.Buffer values over adjacent
+		// sub-slices of ONE array (a caller forwarding frames out of a receive buffer): the encoding of such a
+		// message is a view of that array with spare capacity behind it, which the writer must not write into
+		sharedArr := gen.Pick(rt, "shared_array", 4) == 0
+		var slab []byte
 		msgs := make([][]outMsg, np)
 		sizes := map[int]bool{}
 		total := 0
@@ -85,6 +90,16 @@ func TestC11(t *testing.T) {
 					for i := 8; i < size; i++ {
 						f[i] = byte(xid) + byte(i*5) ^ byte(i>>8)
 					}
+					if sharedArr && size <= 4000 {
+						off := len(slab)
+						slab = append(slab, f...)
+						_ = off
+						m = nil // built after the slab is complete (append may move it)
+						msgs[p] = append(msgs[p], outMsg{p, s, nil, f})
+						sizes[len(f)] = true
+						total += len(f)
+						continue
+					}
 					m = &rawMsg{data: f}
 				}
 				enc, _ := m.MarshalBinary()
@@ -93,6 +108,20 @@ func TestC11(t *testing.T) {
 				total += len(enc)
 				msgs[p] = append(msgs[p], outMsg{p, s, m, enc})
 			}
+		}
+		if sharedArr {
+			// carve the util.Buffer messages out of the finished slab, in submission-independent order
+			off := 0
+			for p := range msgs {
+				for i := range msgs[p] {
+					if msgs[p][i].m == nil {
+						n := len(msgs[p][i].enc)
+						msgs[p][i].m = util.NewBuffer(slab[off : off+n]) // capacity runs on into the following frames
+						off += n
+					}
+				}
+			}
+			c.Label("messages_share_one_array")
 		}
 		conn := newScriptConn(nil, nil)
 		if slowPeer > 0 {
